@@ -208,6 +208,11 @@ static int run_call(const jv *act, cres *r, char *why, size_t wn)
         for (k = 0; k < 8 && v && k < v->n; k++) strs[k] = K_(v->e[k]);
         WIN(4); RPTR(cJSON_CreateStringArray(isnull ? NULL : strs, cnt));
     } else if (!strcmp(a, "Duplicate")) { WIN(3); RPTR(cJSON_Duplicate(N_(A(1)), (cJSON_bool)jv_int(A(2))));
+    } else if (!strcmp(a, "AddItemToObjectAlias")) { cJSON *it = N_(A(2)); WIN(3); RBOOL(cJSON_AddItemToObject(N_(A(1)), it->string, it));
+    } else if (!strcmp(a, "ReplaceItemInObjectAlias")) { cJSON *it = N_(A(2)); WIN(4);
+        if (jv_int(A(3))) RBOOL(cJSON_ReplaceItemInObjectCaseSensitive(N_(A(1)), it->string, it)); else RBOOL(cJSON_ReplaceItemInObject(N_(A(1)), it->string, it));
+    } else if (!strcmp(a, "EnvMakeCycle")) { N_(A(1))->child = N_(A(2)); r->t = 3;      /* the caller's own doing, not a library call */
+    } else if (!strcmp(a, "EnvBreakCycle")) { N_(A(1))->child = NULL; r->t = 3;
     } else if (!strcmp(a, "SortObject")) { al_window(0); if (jv_int(A(2))) cJSONUtils_SortObjectCaseSensitive(N_(A(1))); else cJSONUtils_SortObject(N_(A(1))); r->t = 3;
     } else { snprintf(why, wn, "unknown action %s", a); return 0; }
     al_fail_at = 0;
@@ -257,7 +262,13 @@ static int do_transition(const jv *line)
         }
         if (ok) {
             /* epilogue (C07): releasing every caller-held root returns the allocator to balance */
-            const jv *post = jv_at(outs->e[matched], 0); size_t i;
+            const jv *post = jv_at(outs->e[matched], 0); size_t i; int cyclic = 0;
+            /* a structure the caller made cyclic by hand cannot be released by the library; it is taken apart first */
+            for (i = 1; i <= NN; i++) if (is_live_rec(post->e[i-1]) && !fld(post->e[i-1], F_REF)) {
+                long c = fld(post->e[i-1], F_CH);
+                if (c && is_live_rec(post->e[c-1]) && fld(post->e[c-1], F_ROOT)) { bp[i]->child = NULL; cyclic = 1; }
+            }
+            (void)cyclic;
             for (i = 1; i <= NN; i++) if (is_live_rec(post->e[i-1]) && fld(post->e[i-1], F_ROOT)) cJSON_Delete(bp[i]);
             if (al_live != 0 || al_bad_free != 0) { ok = 0; snprintf(why1, sizeof(why1), "after deleting all roots %ld block(s) remain allocated and %ld invalid release(s) were made", al_live, al_bad_free); }
             else if (!cm_intact(why1, sizeof(why1))) ok = 0;
@@ -331,7 +342,8 @@ int vd_tree_main(int argc, char **argv)
     hooks.malloc_fn = al_malloc; hooks.free_fn = al_free;
     cJSON_InitHooks(&hooks);
     vd_install_handlers();
-    while ((len = getline(&line, &cap, stdin)) > 0) {
+    while ((len = getline(&line, &cap, stdin)) > 0 || (len < 0 && errno == EINTR && !feof(stdin) && (clearerr(stdin), 1))) {
+        if (len <= 0) continue;
         char *copy; jv *v; int rc;
         if (line[0] != '"') { if (VD.passthrough) fputs(line, VD.passthrough); continue; }
         copy = strdup(line);
